@@ -52,6 +52,9 @@ class C12(Spec):
                 return "schedule %s of %s: continuation %s ran %d time(s), expected %d (%s)" % (t[2], t[1], k, f[k], v, impl)
         if f["err"]:
             return "schedule %s of %s: the settling thread got an exception" % (t[2], t[1])
+        if f.get("wrong"):
+            return ("schedule %s of %s: %d continuation(s) ran with something else than the settled outcome "
+                    "(wrong value, or an unset exception)" % (t[2], t[1], f["wrong"]))
         return None
 
     def nontrivial(self, case, impl):
